@@ -48,6 +48,9 @@ def gen_cfg(rng):
     cfg['save'] = rng.choice(['SaveSolver', 'dill', 'frequency'])
     cfg['restore'] = 'LoadSolver' if cfg['save'] != 'dill' else 'dill'
     cfg['freq'] = rng.choice([1, 2, 3])
+    # the solver-specific settings (strategy, CrossProbability, ScalingFactor / radius, adaptive / xtol, imax) are documented as sticky:
+    # a restored solver continued WITHOUT repeating them must follow the same trajectory as one that repeats them
+    cfg['resume_settings'] = rng.choice(['repeat', 'plain'])
     return cfg
 
 
@@ -149,7 +152,7 @@ def run_boundaries(rng, obs, tmp):
         ok = True
         for j in range(k + 1, N + 1):
             try:
-                r.Step(**kw)
+                r.Step(**(kw if cfg.get('resume_settings', 'repeat') == 'repeat' else {}))
             except Exception as e:
                 obs.violation('resume:continuing the restored solver reproduces the uninterrupted run', k=k, step=j, field='exception', save=cfg['save'],
                               restore=cfg['restore'], solver=cfg['solver'], error=repr(e)[:200])
@@ -161,7 +164,7 @@ def run_boundaries(rng, obs, tmp):
             if d is not None:
                 obs.check(False, 'resume:continuing the restored solver reproduces the uninterrupted run', k=k, step=j, field=d, save=cfg['save'],
                           restore=cfg['restore'], solver=cfg['solver'], observed=str(st.get(d))[:300], expected=str(ref[j].get(d))[:300],
-                          powell_periodic=cfg['solver'] == 'powell' and cfg['save'] == 'frequency')
+                          resume_settings=cfg.get('resume_settings'), powell_periodic=cfg['solver'] == 'powell' and cfg['save'] == 'frequency')
                 ok = False
                 break
             obs.event('assert:resume')
